@@ -30,7 +30,7 @@ import (
 func init() {
 	core.Register(&core.Property{
 		ID: "C17", Level: "exploration", Engine: "sched", Sched: true,
-		Quick: 300000, Thorough: 20000000,
+		Quick: 300000, Thorough: 10000000,
 		Run:        runC17,
 		Rule:       "one run = scripts of tokenizer operations (new, next×k, drain, reset, abandon, next-after-error) for 1..4 simulated goroutines over generated valid and structurally broken documents, plus pool policy and schedule, all from the tape; non-trivial = a tokenizer was reused after Reset, or a scope stack went through the pool to another tokenisation, or a context switch happened; distinct = distinct hash of (scripts, documents, schedule trace)",
 		FaultKinds: []string{"abandon-with-open-scopes", "reset-mid-document", "reset-after-error", "invalid-document", "stack-reused-from-pool", "next-after-error", "context-switch-between-next", "pool-policy:lifo", "pool-policy:fifo", "pool-policy:random", "pool-policy:never-reuse", "pool-policy:drop-on-put"},
